@@ -1,0 +1,28 @@
+//go:build verif
+
+// Contracts checked by /verif/govc (comment-only; compiled only with -tags verif).
+package bitslice
+
+// Partition, for an arbitrary wire assignment satisfying the emitted constraints (soundness mode):
+// v = lower + 2^split * upper over the integers, lower < 2^split, upper < 2^(W-split), where W is the
+// WithNbDigits bound when it is below the field width and the field width otherwise. With
+// WithUnconstrainedOutputs only the input bound is enforced (the documented weak contract).
+//@ contract Partition
+//@   props C14
+//@   requires api != nil
+//@   ensures @recompose !opt.nocheck && split <= W(opt.digits) ==> ival(den(v)) == ival(den(lower)) + mulp(ival(den(upper)), split)
+//@   ensures @lower-range !opt.nocheck && split <= W(opt.digits) ==> fits(ival(den(lower)), split)
+//@   ensures @upper-range !opt.nocheck && split <= W(opt.digits) ==> fits(ival(den(upper)), W(opt.digits) - split)
+//@   ensures @input-range opt.digits > 0 && opt.digits < fieldBits() && split <= opt.digits ==> fits(ival(den(v)), opt.digits)
+//   full-width path: the two elementary facts about splitting a little-endian bit sum at position `split`
+//@   lemma @bsum-split bsum(bts) == bsum(bts[:split]) + mulp(bsum(bts[split:]), split)
+//@   lemma @bsum-bound allBool(bts) ==> fits(bsum(bts[:split]), split) && fits(bsum(bts[split:]), len(bts) - split)
+
+//@ spec func W(digits int) int = (digits > 0 && digits < fieldBits()) ? digits : fieldBits()
+
+// Options are closures over the unexported opt type, so the only ones that exist are those built by
+// WithNbDigits (digits >= 1) and WithUnconstrainedOutputs; the verifier cannot resolve calls through the
+// function values, hence this contract is trusted.
+//@ contract parseOpts
+//@   trusted
+//@   ensures result.1 == nil ==> result.0 != nil && fresh(result.0) && result.0.digits >= 0
